@@ -120,7 +120,7 @@ class tcp_opt (object):
     elif o.type == tcp_opt.SACK:
       if length >= 2 and ((length-2) % 8) == 0:
         num = (length - 2) // 8
-        val = struct.unpack("!" + "II" * num, arr[i+2:])
+        val = struct.unpack("!" + "II" * num, arr[i+2:i+length])
         val = [(x,y) for x,y in zip(val[0::2],val[1::2])]
         o.val = val
       else:
